@@ -89,6 +89,10 @@ Definition query_suffix (t : target) : str :=
 Definition fields_to_hmap (fs : list (str * str)) : hmap :=
   fold_left (fun h kv => h_add (fst kv) (snd kv) h) fs [].
 
+(* what a peer received, grouped by the exact spelling of the field name on the wire *)
+Definition obs_hmap (fs : list (str * str)) : hmap :=
+  fold_left (fun h kv => raw_set (fst kv) (raw_values (fst kv) h ++ [snd kv]) h) fs [].
+
 Definition k_host := b "Host".
 Definition k_trailer := b "Trailer".
 Definition k_pragma := b "Pragma".
@@ -169,15 +173,17 @@ Definition transport_out (x : xin) (t : target) (r : mreq) : option xout :=
 
 Inductive xexpect := XRefused (status : N) | XSent (o : xout) | XBadRequest.
 
-Definition e2e_model (x : xin) : xexpect :=
+Definition e2e_model_cfg (cfg : pcfg) (x : xin) : xexpect :=
   match read_request x with
   | None => XBadRequest
   | Some (r, t) =>
-      match handle_request (xi_tag x) r with
+      match handle_request_cfg cfg (xi_tag x) r with
       | Refused st => XRefused st
       | Passed r' => match transport_out x t r' with Some o => XSent o | None => XBadRequest end
       end
   end.
+
+Definition e2e_model (x : xin) : xexpect := e2e_model_cfg no_cfg x.
 
 (* ---------- observation ---------- *)
 Record xobs := {
@@ -189,18 +195,18 @@ Record xobs := {
 }.
 Record xcase := { x_in : xin; x_obs : xobs }.
 
-Definition xcase_model_ok (c : xcase) : bool :=
-  let o := x_obs c in
-  match e2e_model (x_in c) with
+Definition xobs_matches (e : xexpect) (x : xin) (o : xobs) : bool :=
+  match e with
   | XBadRequest => (xb_status o =? 400) && (xb_count o =? 0)
   | XRefused st => (xb_status o =? st) && (xb_count o =? 0)
   | XSent e =>
       (xb_status o =? 200) && (xb_count o =? 1) &&
       str_eqb (xb_method o) (xo_method e) && str_eqb (xb_target o) (xo_target e) &&
       str_eqb (xb_proto o) (b "HTTP/1.1") &&
-      hmap_eqb (fields_to_hmap (xb_fields o)) (xo_hdr e) &&
-      (norm_framing (xb_framing o) (xb_blen o) =? xo_framing e) && (xb_blen o =? xi_blen (x_in c)) && xb_body_equal o
+      hmap_eqb (obs_hmap (xb_fields o)) (xo_hdr e) &&
+      (norm_framing (xb_framing o) (xb_blen o) =? xo_framing e) && (xb_blen o =? xi_blen x) && xb_body_equal o
   end.
+Definition xcase_model_ok (c : xcase) : bool := xobs_matches (e2e_model (x_in c)) (x_in c) (x_obs c).
 
 (* ---------- the property on (sent, received) ---------- *)
 (* origin-form of what the client asked for: path and query byte for byte ("/" for an empty path) *)
@@ -270,11 +276,9 @@ Definition xkey_ok (x : xin) (hin hout : hmap) (k : str) : bool :=
 Definition xdoc_keys : list str :=
   [k_host; via_key; k_xff; k_xfp; k_xfh; k_xfu; k_ua; k_ae; k_cl; k_te; k_connection; k_upgrade].
 
-Definition xcase_prop_ok (c : xcase) : bool :=
-  let x := x_in c in
-  let o := x_obs c in
+Definition xprop_ok (keyok : xin -> hmap -> hmap -> str -> bool) (extra : list str) (x : xin) (o : xobs) : bool :=
   let hin := raw_del k_host (fields_to_hmap (xi_fields x)) in
-  let hout := fields_to_hmap (xb_fields o) in
+  let hout := obs_hmap (xb_fields o) in
   let looped := own_sub (xi_tag x) (raw_values via_key (after_removal hin)) in
   if xb_count o =? 0 then
     (* not forwarded: only a detected loop justifies it *)
@@ -284,16 +288,16 @@ Definition xcase_prop_ok (c : xcase) : bool :=
     (xb_count o =? 1) && (xb_status o =? 200) &&
     str_eqb (xb_method o) (xi_method x) &&
     str_eqb (xb_target o) ((if xi_mode x =? 1 then b "http://" ++ sent_host x else []) ++ sent_path_query x) &&
-    forallb (xkey_ok x hin hout) (xdoc_keys ++ keys hin ++ keys hout) &&
+    forallb (keyok x hin hout) (xdoc_keys ++ extra ++ keys hin ++ keys hout) &&
     (xb_blen o =? xi_blen x) && xb_body_equal o &&
     (norm_framing (xb_framing o) (xb_blen o) =? norm_framing (xi_framing x) (xi_blen x)).
+Definition xcase_prop_ok (c : xcase) : bool := xprop_ok xkey_ok [] (x_in c) (x_obs c).
 
 (* which parts of the predicate fail, for naming the input class of a violation *)
-Definition xdiag (c : xcase) : list str :=
-  let x := x_in c in let o := x_obs c in
+Definition xdiag_gen (keyok : xin -> hmap -> hmap -> str -> bool) (extra : list str) (x : xin) (o : xobs) : list str :=
   let hin := raw_del k_host (fields_to_hmap (xi_fields x)) in
-  let hout := fields_to_hmap (xb_fields o) in
-  if xcase_prop_ok c then [] else
+  let hout := obs_hmap (xb_fields o) in
+  if xprop_ok keyok extra x o then [] else
   if xb_count o =? 0 then [b "NOTFORWARDED"] else
    (if str_eqb (xb_target o) ((if xi_mode x =? 1 then b "http://" ++ sent_host x else []) ++ sent_path_query x) then [] else [b "TARGET"]) ++
    (if str_eqb (xb_method o) (xi_method x) then [] else [b "METHOD"]) ++
@@ -301,7 +305,21 @@ Definition xdiag (c : xcase) : list str :=
    (if (norm_framing (xb_framing o) (xb_blen o) =? norm_framing (xi_framing x) (xi_blen x)) then [] else [b "FRAMING"]) ++
    (if (xb_status o =? 200) && (xb_count o =? 1) then [] else [b "STATUS"]) ++
    (if negb (own_elem (xi_tag x) (raw_values via_key (after_removal hin))) then [] else [b "OWNFORWARDED"]) ++
-   nodup (list_eq_dec N.eq_dec) (filter (fun k => negb (xkey_ok x hin hout k)) (xdoc_keys ++ keys hin ++ keys hout)).
+   nodup (list_eq_dec N.eq_dec) (filter (fun k => negb (keyok x hin hout k)) (xdoc_keys ++ extra ++ keys hin ++ keys hout)).
+Definition xdiag (c : xcase) : list str := xdiag_gen xkey_ok [] (x_in c) (x_obs c).
+
+(* ---------- configured proxies: --header rules and --credentials ---------- *)
+Record ycase := { y_cfg : pcfg; y_in : xin; y_obs : xobs }.
+Definition ycase_model_ok (c : ycase) : bool := xobs_matches (e2e_model_cfg (y_cfg c) (y_in c)) (y_in c) (y_obs c).
+(* names outside the documented set: after the hop-by-hop removal, rewritten by the configured request rules, then
+   the site credentials; when a rule acts on a documented field only the correspondence is checked for the case *)
+Definition ykey_ok (cfg : pcfg) (x : xin) (hin hout : hmap) (k : str) : bool :=
+  if negb (rules_clean (p_request_rules cfg) xdoc_keys) then true
+  else if mem k xdoc_keys then xkey_ok x hin hout k
+  else opt_vals_eqb (raw_get k hout)
+         (raw_get k (site_auth_spec cfg (G16.Model.apply_rules (p_request_rules cfg) (after_removal hin)))).
+Definition ycase_prop_ok (c : ycase) : bool := xprop_ok (ykey_ok (y_cfg c)) [k_authorization] (y_in c) (y_obs c).
+Definition ydiag (c : ycase) : list str := xdiag_gen (ykey_ok (y_cfg c)) [k_authorization] (y_in c) (y_obs c).
 
 (* ---------- proxyConn.readRequest: which read deadline is armed while the BODY is read ----------
    hdr / whole = the header and whole-request deadlines (None = zero time = no deadline).  After the head has been
